@@ -117,6 +117,7 @@ Definition run_case (line : str) : str :=
                    match byte_size Release (Size u n) with Some b => print_dec b | None => w "PANIC" end]
         | None => w "BAD-CASE"
         end
+      else if tok_is kind "Z" then w "slept"
       else if tok_is kind "V" then
         match de_time args with
         | Some (Time u _, _) => words [w "secs"; print_dec (time_secs u)]
